@@ -1201,8 +1201,20 @@ async fn client_stream_task(name: String, mut st: CliStream, mb: Mailbox, ctx: C
     }
 }
 
-async fn client_send_task(mut snd: h3::client::SendRequest<SimOpen, Bytes>, mb: Mailbox, ctx: Ctx) {
+async fn client_send_task(snd: h3::client::SendRequest<SimOpen, Bytes>, mb: Mailbox, ctx: Ctx) {
     let name = format!("{}snd", ctx.prefix);
+    client_send_task_named(name, snd, mb, ctx, std::rc::Rc::new(std::cell::Cell::new(1))).await
+}
+
+/// `count`: `SendRequest` handles made so far on this connection (the clones are the tasks `snd2`, `snd3`, …)
+fn client_send_task_named(
+    name: String,
+    mut snd: h3::client::SendRequest<SimOpen, Bytes>,
+    mb: Mailbox,
+    ctx: Ctx,
+    count: std::rc::Rc<std::cell::Cell<usize>>,
+) -> std::pin::Pin<Box<dyn std::future::Future<Output = ()>>> {
+    Box::pin(async move {
     loop {
         let cmd = NextCmd(mb.clone()).await;
         let (op, arg) = cmd.split_once(':').unwrap_or((&cmd, ""));
@@ -1210,6 +1222,15 @@ async fn client_send_task(mut snd: h3::client::SendRequest<SimOpen, Bytes>, mb: 
             "dr" => {
                 ctx.log(&name, "dr", "ok".into());
                 return;
+            }
+            // `SendRequest::clone`: the clone becomes the task `snd<k>` (C14: every handle carries a COPY of `send_grease_frame`)
+            "cl" => {
+                count.set(count.get() + 1);
+                let cname = format!("{}snd{}", ctx.prefix, count.get());
+                let cmb: Mailbox = Default::default();
+                let fut = client_send_task_named(cname.clone(), snd.clone(), cmb.clone(), ctx.clone(), count.clone());
+                ctx.spawner.spawn(cname.clone(), cmb, fut);
+                ctx.log(&name, "cl", format!("ok:{}", cname));
             }
             // R:<method>:<uri hex>:<headers>
             "R" => {
@@ -1248,6 +1269,7 @@ async fn client_send_task(mut snd: h3::client::SendRequest<SimOpen, Bytes>, mb: 
             _ => ctx.log(&name, op, "bad-cmd".into()),
         }
     }
+    })
 }
 
 async fn client_conn_task(mut builder: h3::client::Builder, mb: Mailbox, ctx: Ctx) {
